@@ -1544,8 +1544,15 @@ class TLSRecordLayer(object):
                                                " feature")
 
         keyupdate_request = KeyUpdate().create(message_type)
-        for result in self._sendMsg(keyupdate_request):
-            yield result
+        try:
+            for result in self._sendMsg(keyupdate_request):
+                yield result
+        except GeneratorExit:
+            raise
+        except Exception:
+            # same as for a failed write of application data
+            self._shutdown(self.ignoreAbruptClose)
+            raise
         self.session.cl_app_secret, self.session.sr_app_secret = \
             self._recordLayer.calcTLS1_3KeyUpdate_reciever(
                     self.session.cipherSuite,
